@@ -294,7 +294,8 @@ def drop_terminal_measurements(
         A copy of the circuit, with identity or X gates in place of terminal
         measurements.
     Raises:
-        ValueError: if the circuit contains non-terminal measurements, or if
+        ValueError: if the circuit contains non-terminal measurements (including
+            measurements read by classically controlled operations), or if
             the provided context has`deep=False`.
     """
 
@@ -324,6 +325,10 @@ def drop_terminal_measurements(
                 ).on(q)
                 for q, b in zip(op.qubits, op.gate.full_invert_mask())
             ]
+        if op.classical_controls:
+            # The measurement this operation reads is used after it was made: it is not terminal,
+            # and dropping it would leave a control on a key that is never recorded.
+            raise ValueError('Circuit contains a non-terminal measurement.')
         return op
 
     ignored = () if context is None else context.tags_to_ignore
